@@ -49,7 +49,7 @@ def refpat_for(f, u):
     return n
 
 
-def emit_struct(u, rel, name, kind='struct', drop_derive=None, keep_derive=False, tags=None):
+def emit_struct(u, rel, name, kind='struct', drop_derive=None, keep_derive=False, tags=None, keep_vis=False):
     """A struct/enum definition verbatim.  R-derive: `#[derive(...)]` lines are dropped unless
     keep_derive; R-attr: doc comments dropped; R-vis: pub -> pub(crate) on the item itself."""
     text, origin = u.get_item_text(rel, r'(?m)^(?:pub(?:\([a-z]+\))? )?%s %s\b' % (kind, name), '%s %s' % (kind, name))
@@ -61,7 +61,7 @@ def emit_struct(u, rel, name, kind='struct', drop_derive=None, keep_derive=False
     # R-vis: the item and every field become `pub` (a single-file crate has no outside; Verus
     # otherwise treats the datatype as opaque in open spec functions)
     text, n = re.subn(r'(?m)^(?:pub(?:\([a-z]+\))? )?(struct|enum) ', r'pub \1 ', text)
-    if kind == 'struct':
+    if kind == 'struct' and not keep_vis:
         text, n2 = re.subn(r'(?m)^(\s+)(?:pub(?:\([a-z]+\))? )?([a-z_][a-z0-9_]*: )', r'\1pub \2', text)
         n += n2
     u.count('R-vis', n)
